@@ -92,6 +92,18 @@ def func(qualname):
     return f
 
 
+def _snapshot(a):
+    """content of a mutable container argument (identity of the elements), None for anything else"""
+    from pyvc.sym import PySet, PyList, PyDict
+    if isinstance(a, PySet):
+        return ("set", frozenset(id(x) if not isinstance(x, (int, str, bytes)) else x for x in a.s))
+    if isinstance(a, PyList):
+        return ("list", tuple(id(x) if not isinstance(x, (int, str, bytes)) else x for x in a.items))
+    if isinstance(a, PyDict):
+        return ("dict", tuple((k, id(v)) for k, v in a.d.items()))
+    return None
+
+
 def equiv_unit(prop, name, qualname, specname, make_inputs, kind=None, spec_args=None, prop_level=True, functions=None,
                requires=None, max_paths=20000, proves=None):
     """unit: for all inputs built by make_inputs(ctx) -> list of args: outcome(code) agrees with outcome(spec)"""
@@ -104,10 +116,17 @@ def equiv_unit(prop, name, qualname, specname, make_inputs, kind=None, spec_args
             pre = ip.call_function(func("spec." + requires), list(sargs), {}, ctx)
             ctx.assume(ip.truth(pre, ctx))
         ip.no_contract_for = {f.qualname}
+        # the specification (pure) is evaluated first, on the arguments as the caller passed them; a function that edits a
+        # mutable argument in place must not thereby also edit what the specification sees
+        os_ = outcome_of(lambda: ip.call_function(sp, list(sargs), {}, ctx))
+        snap = [_snapshot(a) for a in args]
         ob = outcome_of(lambda: ip.call_function(f, list(args), {}, ctx))
         ctx._code_outcome = ob
-        os_ = outcome_of(lambda: ip.call_function(sp, list(sargs), {}, ctx))
-        return equiv_obligations(ip, ctx, f"{prop}/{name}", ob, os_, prop_level=prop_level)
+        obs = equiv_obligations(ip, ctx, f"{prop}/{name}", ob, os_, prop_level=prop_level)
+        if any(sn is not None for sn in snap):
+            same = all(sn is None or _snapshot(a) == sn for a, sn in zip(args, snap))
+            obs.append(Obligation(f"{prop}/{name}/mutable_arguments_unchanged", ctx, same, prop_level=prop_level))
+        return obs
 
     def witness(ctx, model):
         if kind is None:
